@@ -389,9 +389,12 @@ def _run_tplot(case, ctx):
     tm = r.choice(["Halsey", "Harkins/Jura"])
     slope = gen.log_uniform(r, 0.05, 50)  # mmol/g/nm
     intercept = r.choice([0.0, gen.log_uniform(r, 0.01, 20)])
-    ads, T = r.choice([("nitrogen", 77.355), ("argon", 87.3)])
-    a = pygaps.Adsorbate.find(ads)
-    M, rho = a.molar_mass(), a.liquid_density(T)
+    # (difluoromethane: its tabulated molar mass differs from the one of its thermodynamic backend - the analysis, like every
+    # conversion of the isotherm, works with the backend's)
+    ads, T = r.choice([("nitrogen", 77.355), ("argon", 87.3), ("difluoromethane", 250.0)])
+    from pgverif.ref import units as RU_
+    fl_ = RU_.fluid(gen.backend_of(ads))
+    M, rho = fl_.molar_mass(), fl_.rho_liq(T)
     # (a third of the recordings start in the micropore-filling range, as high-resolution instruments do)
     p, style = _grid(r, r.choice([0.01, 0.01, 1e-5, 1e-6, 3e-7]), 0.95)
     t = _thick(tm, p)
